@@ -116,3 +116,154 @@ pub fn c18_corpus(dir: &std::path::Path, repo: &std::path::Path) -> std::io::Res
 	}
 	Ok(n)
 }
+
+// ------------------------------------------------------------------------------------------
+// coverage-guided search over the choice tapes of a property (libFuzzer target `tape_prop`)
+//
+// The fuzzer's bytes are the tape (four bytes per choice, little endian), decoded by the same
+// generator and judged by the same oracle as the proptest-driven check. Only properties whose
+// cases run on the calling thread and leave no process-wide state behind are offered here.
+
+/// properties that can be searched in-process, iteration after iteration
+pub const TAPE_FUZZABLE: [&str; 11] = ["C02", "C04", "C06", "C11", "C12", "C13", "C14", "C15", "C16", "C17", "C19"];
+
+pub static T_RUNS: AtomicU64 = AtomicU64::new(0);
+pub static T_NONTRIVIAL: AtomicU64 = AtomicU64::new(0);
+pub static T_KNOWN: AtomicU64 = AtomicU64::new(0);
+pub static T_INCONCLUSIVE: AtomicU64 = AtomicU64::new(0);
+
+pub fn bytes_to_tape(data: &[u8]) -> Vec<u32> {
+	data.chunks(4)
+		.map(|c| {
+			let mut b = [0u8; 4];
+			b[..c.len()].copy_from_slice(c);
+			u32::from_le_bytes(b)
+		})
+		.collect()
+}
+
+fn fuzz_prop() -> &'static dyn crate::engine::Property {
+	static P: OnceLock<Box<dyn crate::engine::Property>> = OnceLock::new();
+	P.get_or_init(|| {
+		let id = std::env::var("KVERIF_FUZZ_PROP").expect("KVERIF_FUZZ_PROP");
+		assert!(TAPE_FUZZABLE.contains(&id.as_str()), "{id} cannot be searched in-process");
+		crate::props::lookup(&id).expect("property")
+	})
+	.as_ref()
+}
+
+fn known_of(id: &str) -> Vec<Finding> {
+	findings::load(&root()).into_iter().filter(|f| f.property == id && !f.fixed).collect()
+}
+
+/// One evaluation of a property on a tape given as bytes. `Ok(true)` = passed and non-trivial.
+pub fn tape_bytes(prop: &dyn crate::engine::Property, data: &[u8]) -> Result<bool, Failure> {
+	let tape = bytes_to_tape(data);
+	let mut ctx = crate::engine::Ctx::new(crate::engine::Tier::Quick);
+	let r = crate::engine::runner::run_case(prop, &tape, &mut ctx);
+	match r {
+		Ok(info) => Ok(info.nontrivial),
+		Err(f) if f.oracle == "inconclusive" || f.oracle == "setup" => {
+			T_INCONCLUSIVE.fetch_add(1, Ordering::Relaxed);
+			Ok(false)
+		}
+		Err(f) => Err(f),
+	}
+}
+
+/// libFuzzer entry of `tape_prop`: known findings are tolerated (counted), anything else aborts
+/// the process so that libFuzzer saves the input
+pub fn tape_fuzz_one(data: &[u8]) {
+	static HOOK: OnceLock<()> = OnceLock::new();
+	HOOK.get_or_init(monitor::install_panic_hook);
+	static KNOWN: OnceLock<Vec<Finding>> = OnceLock::new();
+	let prop = fuzz_prop();
+	let known = KNOWN.get_or_init(|| known_of(prop.id()));
+	match tape_bytes(prop, data) {
+		Ok(nt) => {
+			if nt {
+				T_NONTRIVIAL.fetch_add(1, Ordering::Relaxed);
+			}
+		}
+		Err(f) if known.iter().any(|k| k.signature == f.sig) => {
+			T_KNOWN.fetch_add(1, Ordering::Relaxed);
+		}
+		Err(f) => {
+			eprintln!("VIOLATION-IN-TARGET property={} oracle={} sig={} :: {}", prop.id(), f.oracle, f.sig, f.detail);
+			std::process::abort();
+		}
+	}
+	let n = T_RUNS.fetch_add(1, Ordering::Relaxed) + 1;
+	if n % 1000 == 0 {
+		if let Ok(p) = std::env::var("KVERIF_FUZZ_STATS") {
+			// (several worker processes: one file each)
+			let _ = std::fs::write(format!("{p}.{}", std::process::id()), format!("{{\"runs\":{},\"nontrivial\":{},\"known_tolerated\":{},\"inconclusive\":{}}}", n, T_NONTRIVIAL.load(Ordering::Relaxed), T_KNOWN.load(Ordering::Relaxed), T_INCONCLUSIVE.load(Ordering::Relaxed)));
+		}
+	}
+}
+
+/// Strict replay of a libFuzzer artifact of `tape_prop`: the bytes are turned back into a tape,
+/// the case is judged once more outside the fuzzer, shrunk, and saved as an ordinary replay file.
+pub fn tape_strict(id: &str, data: &[u8]) -> i32 {
+	monitor::install_panic_hook();
+	let Some(prop) = crate::props::lookup(id) else { return 2 };
+	let known = known_of(id);
+	match tape_bytes(prop.as_ref(), data) {
+		Ok(nt) => {
+			println!("PASS {} choices nontrivial={nt}", data.len().div_ceil(4));
+			0
+		}
+		Err(f) if known.iter().any(|k| k.signature == f.sig) => {
+			println!("KNOWN-FINDING: property={id} [signature={}] {}", f.sig, f.detail);
+			0
+		}
+		Err(f) => {
+			let tape = bytes_to_tape(data);
+			let sigs: Vec<String> = known.iter().map(|k| k.signature.clone()).collect();
+			let last = std::cell::RefCell::new(f);
+			let (small, _) = crate::engine::shrink::shrink(
+				tape,
+				|cand| {
+					let mut ctx = crate::engine::Ctx::new(crate::engine::Tier::Quick);
+					match crate::engine::runner::run_case(prop.as_ref(), cand, &mut ctx) {
+						Err(f2) if !sigs.contains(&f2.sig) && f2.oracle != "inconclusive" && f2.oracle != "setup" => {
+							*last.borrow_mut() = f2;
+							true
+						}
+						_ => false,
+					}
+				},
+				3000,
+			);
+			let f = last.into_inner();
+			let path = crate::engine::runner::save_replay(prop.as_ref(), &small, &f);
+			println!("VIOLATION property={id} replay={}", path.display());
+			println!("NOTE {id} oracle={} sig={} :: {}", f.oracle, f.sig, f.detail.replace('\n', " | "));
+			1
+		}
+	}
+}
+
+/// seed corpus for `tape_prop`: the empty tape, the all-zero tape, and pseudo-random tapes of the
+/// property's full length (libFuzzer grows inputs slowly from an empty corpus)
+pub fn tape_corpus(id: &str, dir: &std::path::Path, seed: u64, files: usize) -> std::io::Result<usize> {
+	let prop = crate::props::lookup(id).ok_or_else(|| std::io::Error::new(std::io::ErrorKind::Other, "property"))?;
+	std::fs::create_dir_all(dir)?;
+	let len = prop.tape_len(crate::engine::Tier::Quick);
+	std::fs::write(dir.join("empty"), [])?;
+	std::fs::write(dir.join("zeros"), vec![0u8; len * 4])?;
+	let mut s = seed.wrapping_mul(0x9E3779B97F4A7C15) ^ 0xD1B54A32D192ED03;
+	for i in 0..files {
+		let mut b = Vec::with_capacity(len * 4);
+		for _ in 0..len {
+			s = s.wrapping_add(0x9E3779B97F4A7C15);
+			let mut z = s;
+			z = (z ^ (z >> 30)).wrapping_mul(0xBF58476D1CE4E5B9);
+			z = (z ^ (z >> 27)).wrapping_mul(0x94D049BB133111EB);
+			z ^= z >> 31;
+			b.extend_from_slice(&(z as u32).to_le_bytes());
+		}
+		std::fs::write(dir.join(format!("rand-{i}")), b)?;
+	}
+	Ok(files + 2)
+}
